@@ -331,8 +331,9 @@ func (r *Reader) traverseNode(n *html.Node, ctx *parseContext) {
 				text := getDirectTextContent(n, nil)
 				if text != "" {
 					ctx.listItems = append(ctx.listItems, listItem{
-						Text:  text,
-						Level: ctx.listLevel,
+						Text:    text,
+						Level:   ctx.listLevel,
+						Ordered: ctx.listOrdered,
 					})
 				}
 				// Check for nested lists
@@ -536,8 +537,9 @@ func (r *Reader) traverseNodeFiltered(n *html.Node, ctx *parseContext, elements 
 				text := getDirectTextContent(n, ctx.checker)
 				if text != "" {
 					ctx.listItems = append(ctx.listItems, listItem{
-						Text:  text,
-						Level: ctx.listLevel,
+						Text:    text,
+						Level:   ctx.listLevel,
+						Ordered: ctx.listOrdered,
 					})
 				}
 				// Check for nested lists
@@ -966,7 +968,7 @@ func (r *Reader) markdownWithHeadingLevels(opts ExtractOptions, headingLevel fun
 				for j := 0; j < item.Level; j++ {
 					result.WriteString("    ")
 				}
-				if elem.Ordered {
+				if item.Ordered {
 					result.WriteString("1. ")
 				} else {
 					result.WriteString("- ")
